@@ -497,6 +497,21 @@ def _has_dup(p):
     return len(set(vals)) < len(vals)
 
 
+# the source configuration the translator read (names of Model/ParamSpace.v cfg fields); a recorded defect that the
+# source no longer has is never used to explain a violation
+FLAGS = dict(name_fallback_full=False, name_stage3=False, custom_dims_distinct=False, custom_range_optional=False,
+             dask_custom_positional=False, dask_custom_scalar_is_placeholder=False)
+
+
+def set_flags(gen_text: str):
+    import re
+    m = re.search(r"mkCfg((?:\s+(?:true|false))+)\s*\.", gen_text)
+    vals = [v == "true" for v in m.group(1).split()] if m else []
+    if len(vals) == len(FLAGS):
+        for k, v in zip(list(FLAGS), vals):
+            FLAGS[k] = v
+
+
 def classify(c, o, explained=True):
     """Python-side classification of a case that Coq judged to violate the specification (signature only).
     explained = the as-coded model (which contains the recorded defects of the unchanged tree) reproduces what the
@@ -510,8 +525,9 @@ def classify(c, o, explained=True):
     keys = list(dict.fromkeys(p["key"] for p in en))
     shorts = [_short(k) for k in keys]
     shared = [k for k in keys if shorts.count(_short(k)) > 1]
-    collide = any(_wm(a) is not None and _wm(a) == _wm(b) for i, a in enumerate(keys) for b in keys[i + 1:])
-    undefined = any(_wm(k) is None for k in shared)
+    collide = (not FLAGS["name_stage3"]) and any(_wm(a) is not None and _wm(a) == _wm(b)
+                                                 for i, a in enumerate(keys) for b in keys[i + 1:])
+    undefined = (not FLAGS["name_fallback_full"]) and any(_wm(k) is None for k in shared)
     vlens = set()
     for p in en:
         if p["kind"] == "unders" and p["n"] >= 1:
@@ -521,7 +537,7 @@ def classify(c, o, explained=True):
     if not _accepts(c):
         return "accepts_invalid_request" if not o["raised"] else "unclassified"
     if o["raised"]:
-        if c["mode"] == "custom" and not c["range"]:
+        if c["mode"] == "custom" and not c["range"] and not FLAGS["custom_range_optional"]:
             return "custom_without_column_range_raises"
         if undefined:
             return "dim_name_undefined_raises"
@@ -529,16 +545,17 @@ def classify(c, o, explained=True):
             return "dim_name_collision_raises"
         if dask and c["mode"] == "product" and any(_has_dup(p) for p in en):
             return "dask_product_duplicate_values_raises"
-        if dask and c["mode"] == "custom" and c["range"][0] > 0:
+        if dask and c["mode"] == "custom" and c["range"] and c["range"][0] > 0 and not FLAGS["dask_custom_positional"]:
             return "dask_custom_column_offset_raises"
-        if c["mode"] != "product" and len(vlens) > 1 and not dask:
+        if c["mode"] != "product" and len(vlens) > 1 and not dask and not FLAGS["custom_dims_distinct"]:
             return "vector_lengths_differ_raises"
         return "raises_on_valid_request"
     if collide and c["mode"] != "product" and not dask:
         return "dim_name_collision_silent"
     if dask and c["mode"] == "sequential" and len(en) >= 2:
         return "dask_sequential_zips"
-    if dask and c["mode"] == "custom" and any(p["kind"] == "unders" and p["n"] == 1 for p in en):
+    if dask and c["mode"] == "custom" and any(p["kind"] == "unders" and p["n"] == 1 for p in en) \
+            and not FLAGS["dask_custom_scalar_is_placeholder"]:
         return "dask_custom_one_element_list_scalar"
     return "runs_or_labels_differ"
 
@@ -715,6 +732,7 @@ def run(ctx: Ctx):
         ctx.log(f"translation failed (continuing with the FALLBACK model): {ex}")
         gen = {"Gen_C05.v": tr.FALLBACK}
     ctx.cov["src_cfg"] = gen["Gen_C05.v"].strip().splitlines()[-1]
+    set_flags(gen["Gen_C05.v"])
     core.proof_leg(ctx, gen, PROP_FILE)
     cases = gen_cases(ctx, ctx.budget(400, 1500), ctx.budget(160, 600))
     mism, viol, pairs = correspondence(ctx, cases)
